@@ -6,7 +6,9 @@ Definition buf_now : nat := match propose_notif_buf with Known n => n | Unrecogn
 Definition proxy_err_now : bool := match proxy_returns_err with Known b => b | Unrecognised _ => false end.
 Lemma C11_facts_ok :
   propose_notif_buf = Known 1%nat /\ apply_notify_nonblocking = Known true /\ propose_order = Known true /\
-  proxy_returns_err = Known true /\ dimension_checked_first = Known true.
+  proxy_returns_err = Known true /\ dimension_checked_first = Known true /\
+  (* waiter ids are random UUIDs: the id inside a log entry names at most one waiter in the whole cluster *)
+  notification_ids_global = Known true.
 Proof. repeat split; reflexivity. Qed.
 Lemma buf_positive : (0 < buf_now)%nat. Proof. unfold buf_now. simpl. lia. Qed.
 
